@@ -110,3 +110,15 @@ Proof. vm_compute. reflexivity. Qed.
 Theorem C07_assign_names_refuted : exists ns, assign_names [] ns = None.
 Proof. exists ["a"; "a$2"; "a"]. apply assign_names_refuted. Qed.
 Print Assumptions C07_assign_names_refuted.
+
+(* ... and it is the ONLY way: when no name the user wrote (signals, ports, submodules; reserved port names)
+   contains a `$`, the assertion never fails, for any number of clashes *)
+Theorem C07_assign_names_total : forall reserved ns,
+  (forall x, In x reserved -> no_dollar x = true) -> (forall n, In n ns -> no_dollar n = true) ->
+  exists out fin, assign_names reserved ns = Some (out, fin).
+Proof. intros reserved ns H1 H2. apply assign_names_total; [apply names_inv_user|]; assumption. Qed.
+Print Assumptions C07_assign_names_total.
+Example C07_assign_names_total_ex :
+  forallb no_dollar ["clk"; "a"; "a"; "sub"; "a"; "sub"] = true /\
+  assign_names ["clk"] ["a"; "a"; "sub"; "a"; "sub"] = Some (["a"; "a$2"; "sub"; "a$4"; "sub$5"], ["sub$5"; "a$4"; "sub"; "a$2"; "a"; "clk"]).
+Proof. vm_compute. split; reflexivity. Qed.
